@@ -592,12 +592,13 @@ def int_stream(ctx, cfg, q, scale):
             lines += rabin_section(ctx, exe, bits, q)
         for t, bits in ([(0x2f, 1024)] if big else [(3, 256), (0x2f, 512), (0xfb, 512)] + ([] if q else [(5, 128), (0x3fd, 512)])):
             lines += bdpe_section(ctx, exe, t, bits, q)
-        for bits in ([1024, 2048] if big else [512, 256] + ([] if q else [128, 384])):
+        # n^(s+1) has to fit the configured precision (BN_PRECI bits): 2*bits <= BN_PRECI for Paillier, (s+1)*bits for Damgard-Jurik
+        for bits in ([1024, 768] if big else [512, 256] + ([] if q else [128, 384])):
             lines += phpe_section(ctx, exe, bits, q)
         if cfg in ("base", "cp-2048"):
-            for bits, smax in ([(1024, 3)] if big else [(256, 3), (128, 5)]):
+            for bits, smax in ([(512, 3), (1024, 1)] if big else [(256, 3), (128, 5)]):
                 lines += ghpe_section(ctx, exe, bits, smax, q)
-        for sb, nb in ([(256, 2048)] if big else [(128, 512), (64, 256)]):
+        for sb, nb in ([(256, 1024)] if big else [(128, 512), (64, 256)]):
             lines += shpe_section(ctx, exe, sb, nb, q)
     return {"name": "cp-int-" + cfg, "cfg": cfg, "exe": exe, "lines": lines}
 
